@@ -73,6 +73,7 @@ type fStmt struct {
 	then []fStmt
 	els  []fStmt
 	inv  [][3]interface{} // while: invariants (lhs expr, cmp, rhs expr)
+	post [][3]interface{} // while: post-conditions
 }
 
 func renderStmts(sb *strings.Builder, ss []fStmt, indent string) {
@@ -85,12 +86,15 @@ func renderStmts(sb *strings.Builder, ss []fStmt, indent string) {
 		case "call":
 			fmt.Fprintf(sb, "%s%s\n", indent, s.lhs)
 		case "while":
-			if len(s.inv) == 0 {
+			if len(s.inv) == 0 && len(s.post) == 0 {
 				fmt.Fprintf(sb, "%swhile %s %s %s {\n", indent, s.cl.wuffs(), s.cmp, s.cr.wuffs())
 			} else {
 				fmt.Fprintf(sb, "%swhile %s %s %s,\n", indent, s.cl.wuffs(), s.cmp, s.cr.wuffs())
 				for _, iv := range s.inv {
 					fmt.Fprintf(sb, "%s\t\tinv %s %s %s,\n", indent, iv[0].(*fExpr).wuffs(), iv[1].(string), iv[2].(*fExpr).wuffs())
+				}
+				for _, iv := range s.post {
+					fmt.Fprintf(sb, "%s\t\tpost %s %s %s,\n", indent, iv[0].(*fExpr).wuffs(), iv[1].(string), iv[2].(*fExpr).wuffs())
 				}
 				fmt.Fprintf(sb, "%s{\n", indent)
 			}
@@ -408,6 +412,19 @@ func factsPrograms(depth int, withIf bool) [][]fStmt {
 		{fStmt{kind: "while", cl: i, cmp: "<>", cr: fk(6), inv: [][3]interface{}{inv(i, "<=", fk(6))}}, []fStmt{as("i", "+=", fk(1))}},
 		{fStmt{kind: "while", cl: j, cmp: "<", cr: fk(3), inv: [][3]interface{}{inv(i, "==", fb("+", j, j))}}, []fStmt{as("j", "+=", fk(1)), as("i", "+=", fk(2))}},
 	}
+	I := func(l *fExpr, cmp string, r *fExpr) [][3]interface{} { return [][3]interface{}{inv(l, cmp, r)} }
+	loops = append(loops,
+		// post-conditions that follow from the invariants and the negated condition ...
+		loopT{fStmt{kind: "while", cl: i, cmp: "<", cr: fk(3), post: I(i, ">=", fk(3))}, []fStmt{as("i", "+=", fk(1))}},
+		loopT{fStmt{kind: "while", cl: i, cmp: "<", cr: fk(3), inv: I(i, "<=", fk(3)), post: I(i, "==", fk(3))}, []fStmt{as("i", "+=", fk(1))}},
+		loopT{fStmt{kind: "while", cl: i, cmp: "<>", cr: fk(4), inv: I(j, "==", y), post: I(j, "==", y)}, []fStmt{as("i", "+=", fk(1))}},
+		// ... and post-conditions that only hold before the loop is entered (the body falsifies them):
+		// the checker has to reject these; if it accepts one, the post-condition is a false fact afterwards
+		loopT{fStmt{kind: "while", cl: i, cmp: "<", cr: fk(3), post: I(j, "==", fk(0))}, []fStmt{as("j", "=", fk(9)), as("i", "+=", fk(1))}},
+		loopT{fStmt{kind: "while", cl: i, cmp: "<", cr: fk(3), post: I(j, "==", y)}, []fStmt{as("j", "=", x), as("i", "+=", fk(1))}},
+		loopT{fStmt{kind: "while", cl: i, cmp: "<", cr: fk(5), post: I(j, "<=", fk(7))}, []fStmt{as("j", "+=", fk(2)), as("i", "+=", fk(1))}},
+		loopT{fStmt{kind: "while", cl: i, cmp: "<", cr: fk(3), inv: I(i, "<=", fk(3)), post: I(f, "==", x)}, []fStmt{{kind: "call", lhs: "this.clobber!()"}, as("i", "+=", fk(1))}},
+	)
 	lpres := [][]fStmt{nil, {as("i", "=", y)}, {as("j", "=", x)}, {as("j", "=", y)}, {as("i", "=", fk(7))}, {as("this.f", "=", x)}}
 	lposts := [][]fStmt{nil, {as("j", "=", i)}, {as("i", "+=", fk(1))}, {as("i", "=", fb("+", i, y))}}
 	for _, pre := range lpres {
